@@ -31,6 +31,7 @@ func (c *closeNotifyConn) Close() error {
 // oneListener yields one connection; Accept then blocks until Close.
 type oneListener struct {
 	conn    *closeNotifyConn
+	give    net.Conn
 	given   bool
 	mu      sync.Mutex
 	done    chan struct{}
@@ -39,9 +40,19 @@ type oneListener struct {
 	accepted chan struct{}
 }
 
+func newNotify(c net.Conn) *closeNotifyConn {
+	return &closeNotifyConn{Conn: c, closed: make(chan struct{}), written: make(chan struct{})}
+}
+
 func newOneListener(c net.Conn) *oneListener {
-	cn := &closeNotifyConn{Conn: c, closed: make(chan struct{}), written: make(chan struct{})}
-	return &oneListener{conn: cn, done: make(chan struct{}), handled: cn.closed, accepted: make(chan struct{})}
+	cn := newNotify(c)
+	return &oneListener{conn: cn, give: cn, done: make(chan struct{}), handled: cn.closed, accepted: make(chan struct{})}
+}
+
+// newOneListenerWrapped: the server is given [give] (e.g. a *tls.Conn) which
+// sits on top of the notifying connection cn.
+func newOneListenerWrapped(give net.Conn, cn *closeNotifyConn) *oneListener {
+	return &oneListener{conn: cn, give: give, done: make(chan struct{}), handled: cn.closed, accepted: make(chan struct{})}
 }
 
 func (l *oneListener) Accept() (net.Conn, error) {
@@ -50,7 +61,7 @@ func (l *oneListener) Accept() (net.Conn, error) {
 		l.given = true
 		l.mu.Unlock()
 		close(l.accepted)
-		return l.conn, nil
+		return l.give, nil
 	}
 	l.mu.Unlock()
 	<-l.done
